@@ -2,6 +2,7 @@ package c14
 
 import (
 	"context"
+	"fmt"
 	"strings"
 	"sync/atomic"
 	"time"
@@ -182,4 +183,86 @@ func (w *consWire) decideSet(typ core.DutyType, value *pbv1.UnsignedDataSet) (st
 
 		return w.stage, nil, false
 	}
+}
+
+// envelopeShapes sends validly signed consensus messages whose fixed-size fields have other sizes
+// (truncated, over-long, empty hashes at the top level and inside a justification; missing duty;
+// extreme rounds) to the real receive handler. A peer can send any bytes in these fields: the handler
+// may refuse or ignore them, it must not panic (libp2p runs it in a goroutine without recover).
+// Seeded change C14-r7: a 1..31 byte value_hash passed every check and crashed the conversion to a
+// 32-byte array.
+func (w *consWire) envelopeShapes(typ core.DutyType, report func(shape string, pi *panicInfo)) int {
+	mk := func(n int, fill byte) []byte {
+		b := make([]byte, n)
+		for i := range b {
+			b[i] = fill + byte(i)
+		}
+
+		return b
+	}
+	sent := 0
+	send := func(shape string, build func(duty *pbv1.Duty) *pbv1.QBFTConsensusMsg) {
+		duty := core.DutyToProto(core.Duty{Slot: w.r.futureSlot + consSlot.Add(1), Type: typ})
+		msg := build(duty)
+		if msg.GetMsg() != nil {
+			if err := signQBFT(msg.Msg, w.r.p2pKeys[1]); err != nil {
+				return
+			}
+		}
+		for _, j := range msg.GetJustification() {
+			if j != nil {
+				_ = signQBFT(j, w.r.p2pKeys[2])
+			}
+		}
+		ctx, cancel := context.WithTimeout(w.r.ctx, 30*time.Second)
+		pi := guard(func() { _ = w.cons.VerifHandle(ctx, w.r.peers[1], msg) })
+		cancel()
+		sent++
+		report(shape, pi)
+	}
+	for _, n := range []int{1, 2, 16, 31, 33, 48, 64, 1000} {
+		n := n
+		send(fmt.Sprintf("value_hash of %d bytes", n), func(d *pbv1.Duty) *pbv1.QBFTConsensusMsg {
+			return &pbv1.QBFTConsensusMsg{Msg: &pbv1.QBFTMsg{Type: msgPrePrepare, Duty: d, PeerIdx: 1, Round: 1, ValueHash: mk(n, 1)}}
+		})
+		send(fmt.Sprintf("prepared_value_hash of %d bytes", n), func(d *pbv1.Duty) *pbv1.QBFTConsensusMsg {
+			return &pbv1.QBFTConsensusMsg{Msg: &pbv1.QBFTMsg{Type: 4, Duty: d, PeerIdx: 1, Round: 2, PreparedRound: 1, PreparedValueHash: mk(n, 3)}}
+		})
+		send(fmt.Sprintf("justification value_hash of %d bytes", n), func(d *pbv1.Duty) *pbv1.QBFTConsensusMsg {
+			return &pbv1.QBFTConsensusMsg{
+				Msg:           &pbv1.QBFTMsg{Type: 4, Duty: d, PeerIdx: 1, Round: 2},
+				Justification: []*pbv1.QBFTMsg{{Type: 2, Duty: d, PeerIdx: 2, Round: 1, ValueHash: mk(n, 5)}},
+			}
+		})
+		send(fmt.Sprintf("justification prepared_value_hash of %d bytes", n), func(d *pbv1.Duty) *pbv1.QBFTConsensusMsg {
+			return &pbv1.QBFTConsensusMsg{
+				Msg:           &pbv1.QBFTMsg{Type: msgPrePrepare, Duty: d, PeerIdx: 1, Round: 2},
+				Justification: []*pbv1.QBFTMsg{{Type: 4, Duty: d, PeerIdx: 2, Round: 2, PreparedRound: 1, PreparedValueHash: mk(n, 7)}},
+			}
+		})
+	}
+	send("no inner message", func(*pbv1.Duty) *pbv1.QBFTConsensusMsg { return &pbv1.QBFTConsensusMsg{} })
+	send("no duty", func(*pbv1.Duty) *pbv1.QBFTConsensusMsg {
+		return &pbv1.QBFTConsensusMsg{Msg: &pbv1.QBFTMsg{Type: msgCommit, PeerIdx: 1, Round: 1, ValueHash: mk(32, 1)}}
+	})
+	send("nil justification entry", func(d *pbv1.Duty) *pbv1.QBFTConsensusMsg {
+		return &pbv1.QBFTConsensusMsg{Msg: &pbv1.QBFTMsg{Type: 4, Duty: d, PeerIdx: 1, Round: 2}, Justification: []*pbv1.QBFTMsg{nil}}
+	})
+	send("nil value entry", func(d *pbv1.Duty) *pbv1.QBFTConsensusMsg {
+		return &pbv1.QBFTConsensusMsg{Msg: &pbv1.QBFTMsg{Type: msgCommit, Duty: d, PeerIdx: 1, Round: 1, ValueHash: mk(32, 1)}, Values: []*anypb.Any{nil}}
+	})
+	send("empty any value", func(d *pbv1.Duty) *pbv1.QBFTConsensusMsg {
+		return &pbv1.QBFTConsensusMsg{Msg: &pbv1.QBFTMsg{Type: msgCommit, Duty: d, PeerIdx: 1, Round: 1, ValueHash: mk(32, 1)}, Values: []*anypb.Any{{}}}
+	})
+	send("unknown any type", func(d *pbv1.Duty) *pbv1.QBFTConsensusMsg {
+		return &pbv1.QBFTConsensusMsg{Msg: &pbv1.QBFTMsg{Type: msgCommit, Duty: d, PeerIdx: 1, Round: 1, ValueHash: mk(32, 1)}, Values: []*anypb.Any{{TypeUrl: "type.googleapis.com/does.not.Exist", Value: mk(9, 1)}}}
+	})
+	send("round max int64", func(d *pbv1.Duty) *pbv1.QBFTConsensusMsg {
+		return &pbv1.QBFTConsensusMsg{Msg: &pbv1.QBFTMsg{Type: msgCommit, Duty: d, PeerIdx: 1, Round: 1<<63 - 1, ValueHash: mk(32, 1)}}
+	})
+	send("peer index max int64", func(d *pbv1.Duty) *pbv1.QBFTConsensusMsg {
+		return &pbv1.QBFTConsensusMsg{Msg: &pbv1.QBFTMsg{Type: msgCommit, Duty: d, PeerIdx: 1<<63 - 1, Round: 1, ValueHash: mk(32, 1)}}
+	})
+
+	return sent
 }
